@@ -15,7 +15,7 @@ FILES = ["a.go", "b_x.go", "k.go", "m_1.go", "z.go", "c.go", "y.go"]
 
 # std packages usable in generated programs: (skip flag in the model = the call
 # of its init is dropped at the call site, cl/instr.go pkgNoInit)
-STD = {"unsafe": True, "runtime": True, "sync": False, "sync/atomic": False, "reflect": False, "fmt": False}
+STD = {"embed": False, "unsafe": True, "runtime": True, "sync": False, "sync/atomic": False, "reflect": False, "fmt": False}
 
 
 class Pkg:
@@ -31,8 +31,14 @@ class Pkg:
 
 
 def gen_program(seed, mode, npk=None):
-    """mode: plain | sync | skipstd | reflect | fmt | wide | facade
+    """mode: plain | sync | skipstd | reflect | fmt | wide | facade | rtstate
     returns (files {relpath: src}, facts)
+
+    Mode rtstate: main and up to two other packages additionally observe, from a variable
+    initialiser, from an init function and (main) from main.main, state that the init of the std
+    package runtime establishes (runtime.MemProfileRate, 512*1024 after runtime.init); they print
+    `OBS <package> <site> <value>` lines.  Importers never call runtime.init themselves (llgo's
+    replacement is LLGoPackage=link): the entry function is its only caller.
 
     Package kinds: stateful (variables and init functions), facade (functions, a type
     and a constant only: nothing to initialise except the packages it imports),
@@ -84,6 +90,10 @@ def gen_program(seed, mode, npk=None):
     elif mode == "skipstd":
         std_for[users[0].name] += [("unsafe", True), ("sync/atomic", True)]
         std_for[users[-1].name] += [("runtime", True), ("unsafe", False)]
+    elif mode == "rtstate":
+        # llgo's replacement of package runtime imports sync; a program that uses runtime but has no
+        # other importer of sync does not link (undefined sync.init) - so one package uses sync
+        std_for[users[0].name].append(("sync", False))
     elif mode == "reflect":
         std_for[users[0].name].append(("reflect", False))
     elif mode == "fmt":
@@ -185,8 +195,62 @@ def gen_program(seed, mode, npk=None):
             rel = (p.path + "/" if p.path else "") + fn
             files[rel] = "\n".join(src)
         p.ninits = initno
-    facts = {"mode": mode, "packages": []}
+    observers = []
+    if mode == "rtstate":
+        others = [q for q in pkgs]
+        observers = [mainp] + ([others[0]] if others else []) + ([rng.choice(others[1:])] if len(others) > 1 else [])
+        for p in observers:
+            src = ["package %s" % p.name, "", 'import "runtime"', "",
+                   "func obsrt(site string) int {", '\tprintln("OBS", "%s", site, runtime.MemProfileRate)' % p.name, "\treturn 0", "}", "",
+                   'var _ = obsrt("var")', ""]
+            if p is mainp:
+                src += ["var never bool", "", "func init() {", '\tobsrt("init")',
+                        "\t// the documented way to change the profiling rate: as early as possible", "\truntime.MemProfileRate = 4096", "}", "",
+                        "func rtMain() {", '\tobsrt("main.main")', "\tif never {",
+                        "\t\truntime.MemProfile(nil, false) // keeps memory profiling linked in under the reference toolchain", "\t}", "}", ""]
+            else:
+                src += ["func init() {", '\tobsrt("init")', "}", ""]
+            files[(p.path + "/" if p.path else "") + "zz_rt.go"] = "\n".join(src)
+            if "runtime" not in p.imports:
+                p.imports.append("runtime")
+        mf = [k for k in files if "/" not in k and "func main() {" in files[k]][0]
+        files[mf] = files[mf].replace("func main() {\n", "func main() {\n\trtMain()\n")
+    extra = []
+    if mode == "embed":
+        # embsite declares init functions AND a go:embed embed.FS variable that is read from a variable
+        # initialiser declared before it, one declared after it, and from its init functions; embplain
+        # has no init function; main reads both from an initialiser and from main.main.  They print
+        # `EMB <package> <site> <entries in the directory> <bytes of a.txt>` lines.
+        cnt = ["func cnt(site string) int {", "\tn := -1", '\tif es, err := assets.ReadDir("assets"); err == nil {', "\t\tn = len(es)", "\t}",
+               '\tb, _ := assets.ReadFile("assets/a.txt")', '\tprintln("EMB", "%s", site, n, len(b))', "\treturn n", "}", ""]
+        files["embsite/site.go"] = "\n".join(
+            ["package embsite", "", 'import "embed"', "", "// declared before the variable it depends on", 'var Index = cnt("var-before")', "",
+             "//go:embed assets", "var assets embed.FS", "", 'var Second = cnt("var-after")', "", "var InitSaw int", "",
+             "func init() {", '\tInitSaw = cnt("init")', "}", "", "func init() {", '\tcnt("init2")', "}", ""] +
+            [l.replace("%s", "embsite") for l in cnt] + ['func Late() int { return cnt("late") }', ""])
+        files["embplain/plain.go"] = "\n".join(
+            ["package embplain", "", 'import "embed"', "", "//go:embed assets", "var assets embed.FS", "", 'var Count = cnt("var")', ""] +
+            [l.replace("%s", "embplain") for l in cnt])
+        for d in ("embsite", "embplain"):
+            files[d + "/assets/a.txt"] = "alpha\n"
+            files[d + "/assets/b.txt"] = "beta beta\n"
+        files["zz_emb.go"] = "\n".join(
+            ["package main", "", "import (", '\t"verifprog/embplain"', '\t"verifprog/embsite"', ")", "",
+             "func obsEmb(site string, a, b int) int {", '\tprintln("EMB", "main", site, a, b)', "\treturn a + b", "}", "",
+             "// another package's initialiser reads what embsite's initialisers computed",
+             'var _ = obsEmb("var-cross", embsite.Index, embplain.Count)', "",
+             "func embMain() {", '\tobsEmb("main.main", embsite.Late(), embsite.InitSaw)', "}", ""])
+        mf = [k for k in files if "/" not in k and "func main() {" in files[k]][0]
+        files[mf] = files[mf].replace("func main() {\n", "func main() {\n\tembMain()\n")
+        for ip in ("embplain", "embsite"):
+            if ip not in mainp.imports:
+                mainp.imports.append(ip)
+        extra = [{"name": n, "path": "verifprog/" + n, "imports": ["embed"], "nvars": 0, "ninits": 0, "kind": "embed",
+                  "blank_vars": [], "vdeps": [], "nfiles": 1} for n in ("embsite", "embplain")]
+    facts = {"mode": mode, "packages": [], "observers": [p.name for p in observers]}
     for p in order:
+        if p is mainp:
+            facts["packages"] += extra
         facts["packages"].append({
             "name": p.name, "path": ("verifprog/" + p.path) if p.path else "verifprog",
             "imports": [ip if ip in STD else "verifprog/" + ip for ip in p.imports],
